@@ -152,16 +152,17 @@ func VerifC12_BroadcastDurableAcrossRestarts() {
 	defer os.RemoveAll(dir)
 	r, _ := verifRunner(dir)
 	var published []verifPublished
-	steps := 3 + sym.Tier()
+	steps := 4 + sym.Tier()
 	for st := 0; st < steps; st++ {
 		switch sym.Choice("step", 2) {
 		case 0:
-			// small concrete universe (the fully symbolic field space is covered at
-			// filter level by VerifC12_FilterSequences): 2 instances x 2 signatures
+			// small concrete universe (the fully symbolic field space, incl. instance
+			// changes, is covered at filter level by VerifC12_FilterSequences):
+			// 2 local senders x 2 signatures in one slot
 			m := &gpbft.GMessage{
-				Sender: 1,
+				Sender: gpbft.ActorID(1 + sym.Choice("b-sender", 2)),
 				Vote: gpbft.Payload{
-					Instance:         5 + uint64(sym.Choice("b-instance", 2)),
+					Instance:         5,
 					Phase:            gpbft.COMMIT_PHASE,
 					SupplementalData: gpbft.SupplementalData{PowerTable: gpbft.MakeCid([]byte("verif-pt"))},
 					Value:            gpbft.VerifChain(10, 1, 2),
